@@ -710,6 +710,7 @@ var imports = map[string][]string{
 	"C06": {"C05.k", "C14.f", "C15.c"},
 	"C12": {"C05.k"},
 	"C08": {"C19.8"},
+	"C16": {"C11.i"},
 	"C07": {"C19.4"},
 	"C13": {"C15.j"},
 	"C14": {"C03.o", "C03.f", "C06.k"},
